@@ -532,7 +532,7 @@ func TestVerif_C12_cascade(t *testing.T) {
 		}
 		return
 	}
-	verifkit.RapidSetup(300, 12000)
+	verifkit.RapidSetup(800, 16000)
 	rapid.Check(t, func(rt *rapid.T) {
 		c := c12Gen().Draw(rt, "case")
 		h := verifkit.Hash(c)
